@@ -187,6 +187,19 @@ def expected_max_time(tb):
     return v / 1000.0 if tb[1] == 'ms' else v
 
 
+def admissible_max_times(tb):
+    """the double a correct conversion may produce: the float quotient, or the correctly rounded exact quotient
+    (they coincide for integers and short decimals); a result one ulp off both is a wrong conversion"""
+    from fractions import Fraction
+    out = {expected_max_time(tb)}
+    try:
+        q = Fraction(tb[0]) / (1000 if tb[1] == 'ms' else 1)
+        out.add(float(q))
+    except (ValueError, ZeroDivisionError, OverflowError):
+        pass
+    return out
+
+
 EXPECTED_MIN_TIME = [None]  # lower bound given to API-built patterns (hplapi.MIN_TIME); text has no syntax for one
 
 
@@ -215,7 +228,7 @@ def compare_property(p, h, out, path='property', check_meta=True):
     elif exp == math.inf or got == math.inf:
         if exp != got:
             out.append(f'{path}.pattern: max_time {got!r} != {exp!r}')
-    elif abs(got - exp) > 1e-12 * max(abs(exp), 1e-300):
+    elif got not in admissible_max_times(pat[4]):
         out.append(f'{path}.pattern: max_time {got!r} != {exp!r}')
     if check_meta:
         compare_metadata(meta, h.metadata, out, path + '.metadata')
